@@ -13,6 +13,10 @@ class Skip(Exception):
     """case outside the modelled subset"""
 
 
+class TwoRanges(Exception):
+    """an array assignment with two ranges per accessor: encoded for Corr3.check3"""
+
+
 # ------------------------------------------------------------------ plain tuples -> Coq (with HUGE)
 def pe(e, nm):
     k = e[0]
@@ -221,8 +225,15 @@ def encode(case, res, vals, with_store=True):
     if kind == "arrassign":
         if not T[2]:
             raise Skip("whole-array lhs")
-        idx = pick_name(new, "idx")
         a = "(mkAA %d%%nat [%s] %s)" % (nm.get(T[1]), "; ".join(pidx(x, nm) for x in T[2]), pa(T[3], nm, arrays))
+        if sum(1 for x in T[2] if x[0] == "rng") == 2 and sorted(new) == ["idx", "idx_1"]:
+            st = "None"
+            if r0[0] == "ok":
+                exp = [((T[1], l), r0[1].get((T[1], l), 0)) for l in all_locs(arrays[T[1]])]
+                st = pstore_expect(vals, arrays, nm, exp, T)
+            raise TwoRanges("(CArr2 %s %d%%nat %d%%nat %s %s %s)" % (pdecls(arrays, nm), nm.get("idx"), nm.get("idx_1"),
+                                                                a, ps(R, nm), st))
+        idx = pick_name(new, "idx")
         st = "None"
         if r0[0] == "ok":
             exp = [((T[1], l), r0[1].get((T[1], l), 0)) for l in all_locs(arrays[T[1]])]
@@ -358,6 +369,9 @@ def encode2(case, res, vals, with_store=True):
     raise Skip("ranks")
 
 
+HEADER3 = """From Coq Require Import ZArith. From PV Require Import Fort.Syntax Fort.Sem C06.Syntax C06.Model C06.Corr C06.ArrayAssign2D C06.Corr3.
+Open Scope Z_scope."""
+
 HEADER2 = """From Coq Require Import ZArith. From PV Require Import Fort.Syntax Fort.Sem C06.Syntax C06.Model C06.Corr C06.Bounds C06.Corr2.
 Open Scope Z_scope."""
 
@@ -377,6 +391,7 @@ def correspondence(ctx, cases, FX):
     """cases: list of (case, res).  -> (number of cases in the model subset, [(case, res, why)] that disagree)"""
     terms, kept = [], []
     terms2, kept2 = [], []
+    terms3, kept3 = [], []
     rng = ctx.rng("corr-store")
     cap = ctx.pick(300, 10 ** 9)        # quick tier: bounded number of coqc-evaluated cases, spread over all kinds
     if len(cases) > cap * 1.4:
@@ -402,6 +417,11 @@ def correspondence(ctx, cases, FX):
                     break
                 vals = case["_gen"].store(rng)
             t = encode(case, res, vals, with_store=(ctx.thorough or len(terms) % 3 == 0))
+        except TwoRanges as e:
+            terms3.append(str(e))
+            kept3.append((case, res))
+            ctx.hist("model_cases", "arrassign(2 ranges)")
+            continue
         except Skip as e:
             ctx.hist("outside_model", "%s: %s" % (case["kind"], str(e)[:40]))
             continue
@@ -412,9 +432,12 @@ def correspondence(ctx, cases, FX):
     if terms2:
         b2 = ctx.coq_eval_failing(HEADER2, "ccase2", "check2", terms2, shard=200)
         bad2 = [(kept2[i][0], kept2[i][1], terms2[i][:3000]) for i in b2]
-    if not terms:
-        return len(terms2), bad2
     b = lambda v: "true" if v else "false"
     fx = "(mkFixes %s %s %s)" % (b(FX["shortcut"]), b(FX["stride"]), b(FX["redstore"]))
+    if terms3:
+        b3 = ctx.coq_eval_failing(HEADER3, "ccase3", "check3 " + fx, terms3, shard=200)
+        bad2 += [(kept3[i][0], kept3[i][1], terms3[i][:3000]) for i in b3]
+    if not terms:
+        return len(terms2) + len(terms3), bad2
     bad = ctx.coq_eval_failing(HEADER, "ccase", "check " + fx, terms, shard=ctx.pick(50, 200))
-    return len(terms) + len(terms2), bad2 + [(kept[i][0], kept[i][1], terms[i][:3000]) for i in bad]
+    return len(terms) + len(terms2) + len(terms3), bad2 + [(kept[i][0], kept[i][1], terms[i][:3000]) for i in bad]
